@@ -345,3 +345,132 @@ def simplify_ite_deep(t):
         return t
     t = (t[0],) + tuple(simplify_ite_deep(x) for x in t[1:])
     return simplify_ite(t)
+
+
+# --------------------------------------------------------------------------------------------- pieces of a piecewise term
+def _fold_cmp(t):
+    """comparison of two closed numeric terms -> true / false"""
+    if isinstance(t, tuple) and t[0] in CMP and len(t) == 3:
+        try:
+            a, b = _closed(t[1]), _closed(t[2])
+        except SxError:
+            return t
+        return 'true' if {'<': a < b, '<=': a <= b, '>': a > b, '>=': a >= b, '=': a == b}[t[0]] else 'false'
+    return t
+
+
+def _closed(t):
+    """value of a closed numeric term (integer or real numerals), else SxError"""
+    if isinstance(t, str):
+        if re.fullmatch(r'\d+(\.\d+)?', t):
+            return Fraction(t)
+        raise SxError('open')
+    if t[0] not in ('-', '+', '*', '/', 'to_real'):
+        raise SxError('open')
+    args = [_closed(x) for x in t[1:]]
+    if t[0] == 'to_real':
+        return args[0]
+    if t[0] == '-':
+        return -args[0] if len(args) == 1 else args[0] - sum(args[1:])
+    if t[0] == '+':
+        return sum(args)
+    if t[0] == '*':
+        r = Fraction(1)
+        for x in args:
+            r *= x
+        return r
+    if len(args) == 2 and args[1] != 0:
+        return args[0] / args[1]
+    raise SxError('open')
+
+
+def simplify_deep(t):
+    """propagate decided conditions and fold comparisons of numerals, bottom-up"""
+    if isinstance(t, str):
+        return t
+    t = (t[0],) + tuple(simplify_deep(x) for x in t[1:])
+    t = _fold_cmp(t)
+    return simplify_ite(t)
+
+
+def _first_atom(t):
+    """an ite-free comparison atom inside the condition of some ite of t (innermost first), else None"""
+    if isinstance(t, str):
+        return None
+    for x in t[1:]:
+        r = _first_atom(x)
+        if r is not None:
+            return r
+    if t[0] == 'ite':
+        out = []
+        _cmp_atoms(t[1], out)
+        for c in out:
+            if not subterms(c, 'ite'):
+                return c
+    return None
+
+
+def pieces(t, limit=256):
+    """case split of a term (or tuple ('vec', t0, t1, ..)) on the comparison atoms of its ite conditions:
+    list of (conditions, ite-free term).  The conditions of the list are exhaustive and mutually exclusive by construction."""
+    out = []
+
+    def go(u, conds):
+        if len(out) > limit:
+            raise SxError(f'more than {limit} pieces')
+        a = _first_atom(u)
+        if a is None:
+            if subterms(u, 'ite'):
+                raise SxError('an ite whose condition cannot be decided by comparison atoms')
+            out.append((conds, u))
+            return
+        go(simplify_deep(subst(u, {a: 'true'})), conds + (a,))
+        go(simplify_deep(subst(u, {a: 'false'})), conds + (('not', a),))
+    go(simplify_deep(t), ())
+    return out
+
+
+def addends(t, sign=1, out=None):
+    """flatten the top-level + / - structure: list of (sign, term)"""
+    out = [] if out is None else out
+    if isinstance(t, tuple) and t[0] == '+':
+        for x in t[1:]:
+            addends(x, sign, out)
+    elif isinstance(t, tuple) and t[0] == '-' and len(t) == 2:
+        addends(t[1], -sign, out)
+    elif isinstance(t, tuple) and t[0] == '-':
+        addends(t[1], sign, out)
+        for x in t[2:]:
+            addends(x, -sign, out)
+    elif not is_zero(t):
+        out.append((sign, t))
+    return out
+
+
+def evaluate(t, env):
+    """numeric value of an ite-free term at a point (floats; exp / log / atan / sqrt are the real ones) -- used only to PICK a candidate,
+    never to decide an obligation"""
+    import math
+    if isinstance(t, str):
+        if t in env:
+            return env[t]
+        return float(t)
+    op = t[0]
+    a = [evaluate(x, env) for x in t[1:]]
+    if op == '+':
+        return sum(a)
+    if op == '-':
+        return -a[0] if len(a) == 1 else a[0] - sum(a[1:])
+    if op == '*':
+        r = 1.0
+        for x in a:
+            r *= x
+        return r
+    if op == '/':
+        return a[0] / a[1]
+    if op == 'to_real':
+        return a[0]
+    f = {'nv_exp': math.exp, 'nv_log': math.log, 'nv_log1p': math.log1p, 'nv_atan': math.atan, 'nv_sqrt': math.sqrt}.get(op)
+    if f is None:
+        raise SxError(f'evaluate: operator {op}')
+    return f(a[0])
